@@ -122,9 +122,25 @@ class World:
             return self.op_init(el)
         n_ = getattr(el, "N", 1) if isinstance(el, self.M.Link) else 1
         ic = {nm: cs.DM([self.rng.uniform(5.0, 60.0) for _ in range(n_)]) for nm in sorted(el._states)}
+        if isinstance(el, self.M.LinkWithVsl):
+            # (a speed-limited link with numeric states and SYMBOLIC limits cannot be stepped on the unchanged tree - the
+            # limited equilibrium speeds are written into the numeric vector; its limits are numbers as well here)
+            ic["v_ctrl"] = cs.DM([self.rng.uniform(40.0, 120.0) for _ in el.vsl])
         el.init_vars(init_conditions=ic, engine=self.eng)
         self.gen[id(el)] = next(self.counter)
         self.numeric = True
+
+    def op_drop_next(self, el):
+        """The caller takes the results away by hand (the documented empty value), e.g. after editing a parameter, so that a
+        forgotten re-step is reported."""
+        el.next_states = None
+        self.stepinfo.pop(id(el), None)
+
+    def op_reset(self, el):
+        """A full reset of an element by hand."""
+        el.states = el.next_states = el.actions = el.disturbances = None
+        self.stepinfo.pop(id(el), None)
+        self.gen.pop(id(el), None)
 
     def op_reinit_same(self, el):
         if id(el) not in self.gen:
@@ -318,14 +334,14 @@ def observe_compile(W_, rec, ctxhist):
                     return
 
 
-OPS = ("init", "init", "init_numeric", "read_views", "read_views", "reinit_same", "stepel", "stepel", "netstep", "netstep", "netstep_alt", "compile", "compile", "compile",
+OPS = ("init", "init", "init_numeric", "read_views", "read_views", "drop_next", "reset", "reinit_same", "stepel", "stepel", "netstep", "netstep", "netstep_alt", "compile", "compile", "compile",
        "add_branch", "add_ramp", "replace_origin", "replace_link", "replace_dest", "replace_branch_dest", "replace_dest_user", "replace_origin_user")
 
 
 def apply(W_, rec, op, arg=None):
     els = W_.elements()
     lab = op
-    if op in ("init", "init_numeric", "reinit_same", "stepel"):
+    if op in ("init", "init_numeric", "reinit_same", "stepel", "drop_next", "reset"):
         el = els[arg % len(els)] if arg is not None else W_.rng.choice(els)
         lab = f"{op}({el.name})"
         W_.hist.append(lab)
@@ -333,6 +349,10 @@ def apply(W_, rec, op, arg=None):
             W_.op_init(el)
         elif op == "init_numeric":
             W_.op_init_numeric(el)
+        elif op == "drop_next":
+            W_.op_drop_next(el)
+        elif op == "reset":
+            W_.op_reset(el)
         elif op == "reinit_same":
             W_.op_reinit_same(el)
         else:
@@ -340,6 +360,8 @@ def apply(W_, rec, op, arg=None):
             if bad:
                 rec.count("element_step_outcome_unexpected")
                 rec.seen("element_step_outcome_unexpected", bad)
+                if rec.counters.get("element_step_outcome_unexpected", 0) <= 3:
+                    rec.sample({"element_step_outcome_unexpected": bad, "history": list(W_.hist), "sym_type": W_.st})
     elif op in ("netstep", "netstep_alt"):
         W_.hist.append(lab)
         try:
@@ -405,6 +427,11 @@ def run(M, rec, tier, seed, k, n):
         [("init", 0), ("init", 1), ("init", 2), ("init", 3), ("init", 4), ("stepel", 3), ("read_views", None), ("stepel", 0), ("stepel", 1), ("stepel", 2),
          ("stepel", 4), ("compile", None)],
         [("netstep", None), ("read_views", None), ("add_ramp", None), ("init", 4), ("stepel", 4), ("read_views", None), ("compile", None)],
+        # results / variables taken away by hand after a successful compilation with the same engine object
+        [("netstep", None), ("compile", None), ("drop_next", 0), ("compile", None)],
+        [("netstep", None), ("compile", None), ("drop_next", 3), ("compile", None), ("netstep", None), ("compile", None)],
+        [("netstep", None), ("compile", None), ("reset", 1), ("compile", None), ("init", 1), ("compile", None)],
+        [("netstep", None), ("compile", None), ("reset", 0), ("reset", 1), ("reset", 2), ("reset", 3), ("reset", 4), ("compile", None)],
         # elements whose states are held at numbers: as unready as any other until stepped
         [("init_numeric", 0), ("init", 1), ("init", 2), ("init", 3), ("init", 4), ("stepel", 1), ("stepel", 2), ("stepel", 3), ("compile", None)],
         [("netstep", None), ("add_ramp", None), ("init_numeric", 4), ("compile", None)],
